@@ -26,6 +26,19 @@ def build_cases(tier, seed):
             prof["network"] = "grid"
         ctrl = BUILTIN if i % 2 == 0 else hostile_stack(p=0.2, builtin=True, kinds=["Idle", "DispatchStation", "ChargeStation", "ChargeBase", "ReserveBase", "DispatchBase", "DispatchTrip", "Reposition"])
         cases.append(trace_case("C05", i, s, prof, ctrl, steps, ["C05"], opts=({"cosim_ops": {"every": 9, "kinds": ["scale_rate", "append_plugs"]}} if i % 4 == 3 else {})))
+    # one busy plug, many nearly empty vehicles with small batteries: sessions run to a full battery while others wait for the
+    # same plug (hand-overs), under a tariff that changes during the run
+    from hivemon.checks.c18 import queue_spec
+
+    for i in range(12 if tier == "quick" else 200):
+        s = seed * 100000 + 5500 + i
+        spec, qsteps = queue_spec(s)
+        plugs = [(st["id"], pl["charger"]) for st in spec["stations"] for pl in st["plugs"]]
+        t0 = spec["sim"]["start"]
+        spec["prices"] = {"by": "station", "rows": [[t0 + 1 + 600 * w, sid, c, [0.3, 0.55, 0.0, 0.2][(w + k) % 4]] for w in range(4) for k, (sid, c) in enumerate(plugs)]}
+        spec["dispatcher"]["ideal_fastcharge_soc_limit"] = [0.8, 1.0][i % 2]
+        ctrl = {"stack": ["ChargingFleetManager", {"benign_queue": {"p_leave": 0.02, "p_abandon": 0.01, "seed": 5}}]}
+        cases.append(trace_case("C05", i, s, {}, ctrl, qsteps, ["C05"], spec=spec, tag="queue"))
     if tier == "thorough":
         for w in ("denver_downtown/denver_demo.yaml", "denver_downtown/denver_demo_constrained_charging.yaml", "denver_downtown/denver_demo_fleets.yaml"):
             cases.append(shipped_case("C05", w, 700, ["C05"], tag="b"))
